@@ -300,4 +300,31 @@ PROPS = {
         "assumptions": ["identity times for the clock never decrease (enforced by Identity.Validate; proved rejected otherwise in C09)"],
         "gen_facts": [],
     },
+    "C11": {
+        "level_text": "FULL on the modelled cache logic: coherence (excerpts and index are exactly what git holds; every loaded instance is the "
+                      "entity its ref reads as) holds after a rebuild and is preserved by every action - new, commit, taking a merge result, "
+                      "remove, evict, resolve, close+reopen with the load-or-rebuild heuristic (coh_step, coh_run) - hence after any session "
+                      "the cache serves what a rebuild serves (served_eq_rebuild, session_coherent); a merge result is visible in excerpts, "
+                      "index and resolution and the kept instance is the merged entity (pull_visible, loaded_after_merge); the pinned tree's "
+                      "handling of merge results is shown incoherent by a kernel-checked witness (merged_without_index_incoherent). The real "
+                      "check is the correspondence run: after every action of two-user sessions the live RepoCache is compared field by field "
+                      "with a cache rebuilt from a copy of the git data.",
+        "level_note": "Trusted: Lean kernel, harness. Entities, excerpts and index documents are abstract (functions of the entity); bleve is "
+                      "exercised, not modelled. Query results are compared as sets (ties on the sort key across replicas are ordered by map "
+                      "iteration; ordering is C12's subject). Eviction under a small cache size needs a private setter and is covered by the "
+                      "model only. Fixed in /repo: merge results not indexed; data race in the cache build; (from C02/C09) stale entity after a "
+                      "diverged merge, identity updates never reported.",
+        "required_theorems": ["coh_rebuild", "coh_step", "coh_run", "served_eq_rebuild", "session_coherent", "pull_visible", "loaded_after_merge",
+                              "remove_spec", "merged_without_index_incoherent"],
+        "slices": ["C11"],
+        "rule": "sessions of 8..22 (quick) / ..45 (thorough) actions by two users on two go-git repositories sharing a remote, over {new bug, "
+                "comment, label, status, title, push, pull, remove, close+reopen}, each followed by a comparison of everything the live "
+                "cache serves (excerpts, resolved snapshots, identities, valid labels, 10 queries, one full-text probe per bug ever "
+                "titled) with a cache rebuilt from a copy of the git data; the abstract action list of each user is replayed by the model "
+                "(ids in the excerpt map and in the index after every action); non-trivial/distinct = distinct sessions",
+        "trusted_base": [KERNEL, TIE, "model: GitBugModel.Cache (step, rebuild, served) for cache/subcache.go"],
+        "assumptions": ["comparison points are quiescent (every edit is committed before comparing)"],
+        "gen_facts": [],
+        "timeout": {"quick": 900, "thorough": 7200},
+    },
 }
